@@ -842,7 +842,8 @@ class Controller(object):
                 return exit_info
 
         # Now increase npt, if required
-        if params("restarts.increase_npt") and self.model.npt() < params("restarts.max_npt"):
+        # (points are appended to a full set only - add_new_point requires it; a set that is still growing gains points anyway)
+        if params("restarts.increase_npt") and self.model.npt() < params("restarts.max_npt") and self.model.npt() >= self.model.num_pts:
             num_pts_to_add = min(params("restarts.increase_npt_amt"), params("restarts.max_npt") - self.model.npt())
             # First n points will be random orthogonal directions; the rest will be purely random directions
             # sl <= xopt + dirn <= su   -or equivalently-   sl-xopt <= dirn <= su-xopt
